@@ -17,6 +17,7 @@ import (
 	"time"
 	"unicode/utf8"
 
+	"github.com/zishang520/engine.io/v2/verifhook"
 	"github.com/zishang520/webtransport-go"
 )
 
@@ -421,16 +422,26 @@ func (c *Conn) setReadRemaining(n int64) error {
 // Close closes the underlying network connection without sending or waiting
 // for a close message.
 func (c *Conn) CloseWithError(code webtransport.SessionErrorCode, msg string) error {
+	if verifhook.Enabled && c.session == nil {
+		verifhook.Point("wt.nilSession.CloseWithError", c.stream, int(code), msg)
+		return nil
+	}
 	return c.session.CloseWithError(code, msg)
 }
 
 // LocalAddr returns the local network address.
 func (c *Conn) LocalAddr() net.Addr {
+	if verifhook.Enabled && c.session == nil {
+		return verifhook.Addr()
+	}
 	return c.session.LocalAddr()
 }
 
 // RemoteAddr returns the remote network address.
 func (c *Conn) RemoteAddr() net.Addr {
+	if verifhook.Enabled && c.session == nil {
+		return verifhook.Addr()
+	}
 	return c.session.RemoteAddr()
 }
 
